@@ -387,8 +387,9 @@ class Unsupported(Contract):
     properties = ("C14",)
 
     def instances(self, tier):
-        return [dict(label=k, case=k) for k in ("size-param", "csr-matmul",
-                                                "loopy-call")]
+        return [dict(label=k, case=k) for k in (
+            "size-param", "csr-matmul", "loopy-call", "function-call",
+            "distributed-recv", "distributed-send-holder")]
 
     def run(self, h, inst):
         case = inst["case"]
@@ -400,6 +401,17 @@ class Unsupported(Contract):
             r = mk_placeholder(h, "r", shape=[4], dtype=np.int32)
             x = mk_placeholder(h, "x", shape=[3])
             E = pt.sparse_matmul(pt.make_csr_matrix((3, 3), v, c, r), x)
+        elif case == "function-call":
+            # (a call that was not inlined)
+            x = mk_placeholder(h, "x", shape=[4])
+            E = pt.trace_call(lambda a: 2 * a, x) + 1
+        elif case == "distributed-recv":
+            x = mk_placeholder(h, "x", shape=[4])
+            E = pt.make_distributed_recv(0, "t", (4,), np.float64) + x
+        elif case == "distributed-send-holder":
+            x = mk_placeholder(h, "x", shape=[4])
+            E = pt.make_distributed_send_ref_holder(
+                pt.make_distributed_send(x * 2, 1, "t"), x) + 1
         else:
             from pyvc import mapperlib as ml
             from pytato.loopy import LoopyCall
@@ -420,6 +432,53 @@ class Unsupported(Contract):
             return
         h.fail(f"numpy.unsupported.raises-not-supported[{case}]",
                "code was emitted for an unsupported construct")
+
+    def replay(self, inst, clause, model, info):
+        return UNSUPPORTED_REPLAY.format(case=inst["case"])
+
+
+UNSUPPORTED_REPLAY = '''
+import sys
+sys.path.insert(0, "/verif")
+sys.path.append("/verif/.deps")
+import numpy as np
+import pytato as pt
+from pytools import UniqueNameGenerator
+from pytato.target.python.numpy_like import NumpyCodegenMapper
+from pytato.transform import UnsupportedArrayError
+from pyvc.replaylib import reproduced, not_reproduced
+case = {case!r}
+x = pt.make_placeholder("x", (4,), np.float64)
+if case == "size-param":
+    E = pt.make_size_param("n")
+elif case == "csr-matmul":
+    v = pt.make_placeholder("v", (5,), np.float64)
+    c = pt.make_placeholder("c", (5,), np.int32)
+    r = pt.make_placeholder("r", (4,), np.int32)
+    E = pt.sparse_matmul(pt.make_csr_matrix((3, 3), v, c, r),
+                         pt.make_placeholder("y", (3,), np.float64))
+elif case == "function-call":
+    E = pt.trace_call(lambda a: 2 * a, x) + 1
+elif case == "distributed-recv":
+    E = pt.make_distributed_recv(0, "t", (4,), np.float64) + x
+elif case == "distributed-send-holder":
+    E = pt.make_distributed_send_ref_holder(
+        pt.make_distributed_send(x * 2, 1, "t"), x) + 1
+else:
+    from pyvc import mapperlib as ml
+    from pytato.loopy import LoopyCall
+    E = ml.build_node(LoopyCall, "lc").obj["out"]
+m = NumpyCodegenMapper(numpy="np", numpy_backend="xp", vng=UniqueNameGenerator())
+try:
+    m(E)
+except (NotImplementedError, UnsupportedArrayError) as e:
+    not_reproduced(f"not-supported error: {{type(e).__name__}}: {{e}}")
+except Exception as e:
+    reproduced(f"the NumPy-like target answers the unsupported construct "
+               f"'{{case}}' with {{type(e).__name__}}: {{e}} instead of a "
+               f"not-supported error")
+reproduced(f"code was emitted for the unsupported construct '{{case}}'")
+'''
 
 
 @contract
